@@ -160,10 +160,39 @@ pub struct Features {
     pub gaps: usize,
     pub interior_windows: usize,
     pub name_style: u64,
+    pub own_profiles: bool,
 }
 
+/// Seeds from here on name the second family: a small SELF-CONTAINED project (it defines every
+/// material, glass, frame and construction it uses, so it converts without the LIDER catalogue,
+/// and it has no profile or schedule blocks at all, like an old LIDER file).
+pub const SELF_CONTAINED_FROM: u64 = 9_000_000;
+
 pub fn generate(seed: u64) -> String {
+    if seed >= SELF_CONTAINED_FROM {
+        return generate_self_contained(seed);
+    }
     generate_with_features(seed).0
+}
+
+/// The XML frame of the template around the small self-contained BDL text kept in
+/// /verif/miri/src/small_project.bdl. Even seeds define the window construction under the
+/// name of a catalogue entry (with the values HULC writes into a project, which differ from the
+/// catalogue's); seeds divisible by 3 rotate the building.
+pub fn generate_self_contained(seed: u64) -> String {
+    let t = template();
+    let bdl_path = crate::report::verif_dir().join("miri/src/small_project.bdl");
+    let mut bdl = std::fs::read_to_string(&bdl_path).expect("small_project.bdl");
+    if seed % 2 == 0 {
+        bdl = bdl.replace("\"Hueco usuario\"", "\"Doble -- Mrpt - Gris claro\"");
+    }
+    if seed % 3 == 0 {
+        bdl = bdl.replace("X              =              3", "X              =              4");
+    }
+    let open = "<![CDATA[";
+    let a = t.find(open).expect("template CDATA") + open.len();
+    let b = a + t[a..].find("]]>").expect("template CDATA end");
+    format!("{}{}\n{}", &t[..a], bdl, &t[b..])
 }
 
 pub fn generate_with_features(seed: u64) -> (String, Features) {
@@ -198,6 +227,8 @@ pub fn generate_with_features(seed: u64) -> (String, Features) {
     let y_origin = *rng.pick(&[0.0, 0.0, 3.25]);
     let azimuth = *rng.pick(&[0.0, 0.0, 37.5, 270.0]);
     let name_style = [0u64, 0, 1, 2, 3][(seed % 5) as usize];
+    // every third project has profiles of its own next to the template's "Residencial" ones
+    let own_profiles = seed % 3 == 1;
     feat.name_style = name_style;
     feat.floors = n_floors;
     feat.spaces = n_floors * n_spaces;
@@ -340,8 +371,11 @@ pub fn generate_with_features(seed: u64) -> (String, Features) {
             let _ = writeln!(body, "            POLYGON           = \"{}_Pol{}\"", sname, s + 2);
             let _ = writeln!(body, "            TYPE              = {}", stype);
             let _ = writeln!(body, "            SPACE-TYPE        = \"Residencial\"");
-            let _ = writeln!(body, "            SYSTEM-CONDITIONS = \"Residencial\"");
-            let _ = writeln!(body, "            SPACE-CONDITIONS  = \"Residencial\"");
+            // the two profiles of a space need not carry the same name
+            let sysc = if own_profiles { *rng.pick(&["Residencial", "Consignas vivienda", "Consignas vivienda"]) } else { "Residencial" };
+            let spcc = if own_profiles { *rng.pick(&["Residencial", "Residencial", "Cargas propias"]) } else { "Residencial" };
+            let _ = writeln!(body, "            SYSTEM-CONDITIONS = \"{}\"", sysc);
+            let _ = writeln!(body, "            SPACE-CONDITIONS  = \"{}\"", spcc);
             let _ = writeln!(body, "            FLOOR-WEIGHT      =              0");
             let _ = writeln!(body, "            MULTIPLIER        = {}", mult);
             let _ = writeln!(body, "            MULTIPLIED        = {}", if mult > 1 { 1 } else { 0 });
@@ -528,6 +562,29 @@ pub fn generate_with_features(seed: u64) -> (String, Features) {
             *l = format!("      LONG-TOTAL = {:.6}", *rng.pick(&[4.0, 12.5, 40.0]));
         }
     }
+    if own_profiles {
+        // copies of the template's profile blocks under other names (a loads profile and a
+        // thermostat profile that do not share their name)
+        for (btype, new_name) in [("SPACE-CONDITIONS", "Cargas propias"), ("SYSTEM-CONDITIONS", "Consignas vivienda")] {
+            let header = format!("\"Residencial\" = {}", btype);
+            if let Some(a) = tail.iter().position(|l| l.trim() == header) {
+                if let Some(len) = tail[a..].iter().position(|l| l.trim() == "..") {
+                    let mut copy: Vec<String> = tail[a..=a + len].to_vec();
+                    copy[0] = format!("\"{}\" = {}", new_name, btype);
+                    for l in copy.iter_mut().skip(1) {
+                        if l.trim_start().starts_with("NAME ") {
+                            *l = format!("    NAME               = \"{}\"", new_name);
+                        }
+                    }
+                    let at = a + len + 1;
+                    for (k, l) in copy.into_iter().enumerate() {
+                        tail.insert(at + k, l);
+                    }
+                }
+            }
+        }
+    }
+    feat.own_profiles = own_profiles;
     out.push_str(&tail.join("\n"));
     (out, feat)
 }
